@@ -593,6 +593,37 @@ def partC(ctx, res, V, peers):
                       "a message within the announced maximum was not delivered intact to the peer session",
                       dict(rep, receiver=rfw, receiver_state={k: rr[k] for k in ("events", "exc", "tlog")}))
         R.call([{"op": "drop", "id": rid} for rid in ids])
+    # 2a. asyncio PrefixProtocol.sendString called directly: the guard below send() holds by itself
+    P = peers["asyncio"]
+    es = [0, 1, 3, 7] if not thorough else list(range(0, 12))
+    ids = {}
+    for role in ("server", "client"):
+        for e in es:
+            ids[(role, e)] = P.new_id()
+    P.call([{"op": "mk", "id": i, "kind": "rs", "role": role, "sers": ["json"]} for (role, e), i in ids.items()])
+    P.call([{"op": "rx", "id": i, "chunks": [bytes([0x7F, (e << 4) | 1, 0, 0]).hex()]} for (role, e), i in ids.items()])
+    outs2 = P.call([{"op": "sendstring", "id": i, "lens": [2 ** (9 + e) - 1, 2 ** (9 + e), 2 ** (9 + e) + 1]} for (role, e), i in ids.items()])
+    ml = []
+    for (role, e) in ids:
+        L = 2 ** (9 + e)
+        ml += [f"rs.sendstring {L} {n}" for n in (L - 1, L, L + 1)]
+    mo = ctx.driver.run(ml)
+    for k, ((role, e), o) in enumerate(zip(ids, outs2)):
+        L = 2 ** (9 + e)
+        for j, n in enumerate((L - 1, L, L + 1)):
+            r = o["ss"][j]
+            res.evaluations += 1
+            res.count("C:sendString")
+            obs = ("sent " + r["head"]) if r["ok"] else ("error " + r["exc"])
+            rep = {"part": "sendstring", "fw": "asyncio", "role": role, "peer_exp": e, "peer_max": L, "len": n, "observed": obs, "model": mo[3 * k + j]}
+            if obs != mo[3 * k + j]:
+                res.correspondence_breaks.append(dict(rep, stream="C: PrefixProtocol.sendString vs model rs.sendstring"))
+            if n > L and (r["ok"] or r["n"]):
+                V.add("rs-sendstring/asyncio/over-limit-emitted",
+                      f"asyncio PrefixProtocol.sendString wrote a {n}-octet string although the peer announced {L}", rep)
+            if n <= L and (not r["ok"] or r["n"] != n + 4):
+                V.add("rs-sendstring/asyncio/within-limit-refused", "sendString refused a string within the peer's announced maximum", rep)
+    P.call([{"op": "drop", "id": i} for i in ids.values()])
     # 2b. (thorough) the top of the range: exponent 15 announces 2^24, but a RawSocket length field has 24 bits
     if thorough:
         L = 2 ** 24
